@@ -25,7 +25,10 @@ CONSTANTS Alphabet,     \* byte values of the model's streams; LF = 10 must be o
           DefaultBuf,   \* BufferedFile._DEFAULT_BUFSIZE (8192; only a request size, the stream decides what it delivers)
           Sides,        \* subset of {"r", "w", "rw"}: which half of the interface a behaviour uses (the halves share no state)
           LineFlushThroughNewline,  \* FALSE: line-buffered flush stops before the newline (seeded defect)
-          KeepTruncatedTail         \* FALSE: readline(size) forgets the bytes beyond size (seeded defect)
+          KeepTruncatedTail,        \* FALSE: readline(size) forgets the bytes beyond size (seeded defect)
+          WriteFails,               \* TRUE: one call of the stream's _write may raise (timeout ...) while a buffer is flushed
+          RaiseAfterPartial,        \* TRUE: ... also after the same _write_all already pushed part of the data
+          TailAtZero                \* TRUE: a failed flush() keeps the unsent tail in a buffer positioned at 0 (seeded defect)
 
 LF == 10
 Min(a, b) == IF a < b THEN a ELSE b
@@ -76,9 +79,10 @@ VARIABLES Buf, side,            \* how the file was opened (fixed in Init)
           returned,             \* concatenation of everything read calls returned
           pc, closed, ops,
           lastop, lastret, lastexp,   \* the last call, its value and what the reference says
+          wx,                   \* write-failure bookkeeping: [start, restore, viaflush, wpos, fails, err] (see WriteRaise)
           ev                    \* the last step, for generated behaviours (kept out of the state VIEW)
-vars == <<Buf, side, src, off, rbuf, line, arg, eof, wbuf, pend, sink, written, returned, pc, closed, ops, lastop, lastret, lastexp, ev>>
-View == <<Buf, side, src, off, rbuf, line, arg, eof, wbuf, pend, sink, written, returned, pc, closed, ops, lastop, lastret, lastexp>>
+vars == <<wx, Buf, side, src, off, rbuf, line, arg, eof, wbuf, pend, sink, written, returned, pc, closed, ops, lastop, lastret, lastexp, ev>>
+View == <<wx, Buf, side, src, off, rbuf, line, arg, eof, wbuf, pend, sink, written, returned, pc, closed, ops, lastop, lastret, lastexp>>
 
 Rest    == SubSeq(src, off + 1, Len(src))
 BufSize == IF Buf > 1 THEN Buf ELSE DefaultBuf          \* self._bufsize
@@ -94,6 +98,7 @@ Init == /\ Buf \in Bufs /\ side \in Sides
         /\ pc = "idle" /\ closed = FALSE /\ ops = 0
         /\ lastop = "none" /\ lastret = <<>> /\ lastexp = <<>>
         /\ ev = Event("init", "none", 0, <<>>, 0, 0)
+        /\ wx = [start |-> <<>>, restore |-> <<>>, viaflush |-> FALSE, wpos |-> 0, fails |-> 0, err |-> FALSE]
 
 CanCall == pc = "idle" /\ ~closed /\ ops < MaxOps
 \* one call of _read(ask): the stream hands over 1..ask of its remaining bytes, nothing only at its end
@@ -177,21 +182,29 @@ ReadlineReturn ==
   /\ UNCHANGED <<src, off, arg, eof, wbuf, pend, sink, written, closed, ops, lastop, lastexp>>
 
 (* write / flush / close *)
+\* _wbuffer is a BytesIO: bytes plus a write position (wx.wpos; at the end of the bytes unless TailAtZero struck).
+\* wx.start = the data handed to the running _write_all, wx.restore = what _wbuffer holds if that _write_all raises
+\* (4.0.0 resets the buffer only after _write_all returned), wx.viaflush = it runs inside flush().
+Put(b, p, d) == Take(b, p) \o d \o Drop(b, p + Len(d))
 StartWriteAll(data) == /\ pend' = data /\ pc' = IF data = <<>> THEN "idle" ELSE "write_all"
+Begin(data, restore, viaflush, newpos) ==
+  wx' = [wx EXCEPT !.start = data, !.restore = restore, !.viaflush = viaflush, !.wpos = newpos, !.err = FALSE]
 CallWrite(d) ==
   /\ CanCall /\ DoWrites /\ d # <<>>
   /\ lastop' = "write" /\ ops' = ops + 1 /\ written' = written \o d
   /\ ev' = Event("call", "write", 0, d, 0, 0)
-  /\ IF ~Buffered THEN StartWriteAll(d) /\ UNCHANGED wbuf
-     ELSE LET w == wbuf \o d IN
+  /\ IF ~Buffered THEN StartWriteAll(d) /\ Begin(d, <<>>, FALSE, 0) /\ UNCHANGED wbuf
+     ELSE LET w  == Put(wbuf, wx.wpos, d)          \* self._wbuffer.write(data)
+              np == wx.wpos + Len(d)                \* self._wbuffer.tell()
+          IN
           IF Buf = 1
           THEN LET p == LastLF(d)                                  \* only the new data is scanned
                    q == p + Len(w) - Len(d)
                    cut == IF LineFlushThroughNewline THEN q ELSE q - 1
-               IN IF p > 0 THEN StartWriteAll(Take(w, cut)) /\ wbuf' = Drop(w, cut)
-                           ELSE wbuf' = w /\ UNCHANGED <<pend, pc>>
-          ELSE IF Len(w) >= Buf THEN StartWriteAll(w) /\ wbuf' = <<>>
-                                ELSE wbuf' = w /\ UNCHANGED <<pend, pc>>
+               IN IF p > 0 THEN StartWriteAll(Take(w, cut)) /\ wbuf' = Drop(w, cut) /\ Begin(Take(w, cut), w, FALSE, Len(Drop(w, cut)))
+                           ELSE wbuf' = w /\ Begin(<<>>, <<>>, FALSE, np) /\ UNCHANGED <<pend, pc>>
+          ELSE IF np >= Buf THEN StartWriteAll(w) /\ wbuf' = <<>> /\ Begin(w, w, TRUE, 0)
+                            ELSE wbuf' = w /\ Begin(<<>>, <<>>, FALSE, np) /\ UNCHANGED <<pend, pc>>
   /\ UNCHANGED <<src, off, rbuf, line, arg, eof, sink, returned, closed, lastret, lastexp>>
 WriteAccept ==          \* one call of _write(data): the stream takes 1..len(data) bytes
   /\ pc = "write_all" /\ pend # <<>>
@@ -200,24 +213,33 @@ WriteAccept ==          \* one call of _write(data): the stream takes 1..len(dat
        /\ pc' = IF k = Len(pend) THEN "idle" ELSE "write_all"
        /\ ev' = Event("accept", lastop, 0, <<>>, Len(pend), k)
   /\ closed' = (closed \/ (lastop = "close" /\ pc' = "idle"))
-  /\ UNCHANGED <<src, off, rbuf, line, arg, eof, wbuf, written, returned, ops, lastop, lastret, lastexp>>
+  /\ UNCHANGED <<src, off, rbuf, line, arg, eof, wbuf, written, returned, ops, lastop, lastret, lastexp, wx>>
+WriteRaise ==           \* one call of _write(data) raises: the running write / flush / close raises to its caller
+  /\ pc = "write_all" /\ pend # <<>> /\ WriteFails /\ wx.fails < 1 /\ Buffered
+  /\ (RaiseAfterPartial \/ pend = wx.start)
+  /\ LET seeded == TailAtZero /\ wx.viaflush IN
+       /\ wbuf' = IF seeded THEN pend ELSE wx.restore            \* BytesIO(wbuf[written - before:]) | buffer untouched
+       /\ wx' = [wx EXCEPT !.wpos = IF seeded THEN 0 ELSE Len(wx.restore), !.fails = @ + 1, !.err = TRUE]
+  /\ pend' = <<>> /\ pc' = "idle" /\ ev' = Event("raise", lastop, 0, <<>>, Len(pend), 0)
+  /\ UNCHANGED <<src, off, rbuf, line, arg, eof, sink, written, returned, closed, ops, lastop, lastret, lastexp>>
 CallFlush ==
   /\ CanCall /\ DoWrites
-  /\ lastop' = "flush" /\ ops' = ops + 1 /\ StartWriteAll(wbuf) /\ wbuf' = <<>>
+  /\ lastop' = "flush" /\ ops' = ops + 1 /\ StartWriteAll(wbuf) /\ wbuf' = <<>> /\ Begin(wbuf, wbuf, TRUE, 0)
   /\ ev' = Event("call", "flush", 0, <<>>, 0, 0)
   /\ UNCHANGED <<src, off, rbuf, line, arg, eof, sink, written, returned, closed, lastret, lastexp>>
 CallClose ==
   /\ CanCall /\ DoWrites
-  /\ lastop' = "close" /\ ops' = ops + 1 /\ StartWriteAll(wbuf) /\ wbuf' = <<>>
+  /\ lastop' = "close" /\ ops' = ops + 1 /\ StartWriteAll(wbuf) /\ wbuf' = <<>> /\ Begin(wbuf, wbuf, TRUE, 0)
   /\ closed' = (wbuf = <<>>)
   /\ ev' = Event("call", "close", 0, <<>>, 0, 0)
   /\ UNCHANGED <<src, off, rbuf, line, arg, eof, sink, written, returned, lastret, lastexp>>
 
-Next == /\ \/ \E n \in ReadArgs : CallRead(n)
-           \/ \E n \in ReadArgs \cup {-1} : CallReadline(n)
-           \/ CallReadAll \/ ReadFetch \/ ReadReturn \/ ReadAllFetch \/ ReadAllReturn \/ ReadlineFetch \/ ReadlineReturn
+Next == /\ \/ /\ \/ \E n \in ReadArgs : CallRead(n)
+                 \/ \E n \in ReadArgs \cup {-1} : CallReadline(n)
+                 \/ CallReadAll \/ ReadFetch \/ ReadReturn \/ ReadAllFetch \/ ReadAllReturn \/ ReadlineFetch \/ ReadlineReturn
+              /\ UNCHANGED wx
            \/ \E d \in SeqsUpTo(MaxWrite) : CallWrite(d)
-           \/ WriteAccept \/ CallFlush \/ CallClose
+           \/ WriteAccept \/ WriteRaise \/ CallFlush \/ CallClose
         /\ UNCHANGED <<Buf, side>>
 Spec == Init /\ [][Next]_vars
 
@@ -232,7 +254,11 @@ ReturnsReference == (Idle /\ lastop \in {"read", "readall", "readline"}) =>
                        /\ ReadBad(IF lastop = "readline" THEN "readline" ELSE "read", arg, lastret \o Held \o Rest, lastret) = {}
 \* write side
 WriteConservation == sink \o pend \o wbuf = written
-WriteClauses == (Idle /\ lastop \in {"write", "flush", "close"}) => WriteBad(lastop, Buf, written, sink) = {}
-LineDelivered == (Idle /\ Buf = 1) => Len(sink) >= LastLF(written)
+\* a call that raised reported its error; after a failure the "immediately" / buffer-bound clauses no longer apply,
+\* "complete and in order by flush or close" does
+AfterFailure == {"P_line_not_delivered", "C_unbuffered_held", "C_buffer_overfull"}
+WriteClauses == (Idle /\ lastop \in {"write", "flush", "close"} /\ ~wx.err) =>
+                   WriteBad(lastop, Buf, written, sink) \ (IF wx.fails > 0 THEN AfterFailure ELSE {}) = {}
+LineDelivered == (Idle /\ Buf = 1 /\ wx.fails = 0) => Len(sink) >= LastLF(written)
 ClosedFlushed == closed => sink = written
 =============================================================================
